@@ -3,6 +3,7 @@ use crate::coord::Check;
 
 pub mod common;
 pub mod c01;
+pub mod c02;
 pub mod c03;
 pub mod c04;
 pub mod c05;
@@ -15,7 +16,7 @@ pub mod families;
 pub mod c16;
 
 pub fn all() -> Vec<Check> {
-    vec![c01::check(), c03::check(), c04::check(), c05::check(), c06::check(), c07::check(), c08::check(), c13::check(), c14::check(), c16::check()]
+    vec![c01::check(), c02::check(), c03::check(), c04::check(), c05::check(), c06::check(), c07::check(), c08::check(), c13::check(), c14::check(), c16::check()]
 }
 
 pub fn child_main(args: &[String]) -> i32 {
